@@ -2930,7 +2930,13 @@ fn resolve_chord_groups(layers: &mut IntermediateLayers, s: &ParserState) -> Res
         }
 
         let chords = group.chords.iter().map(|(mask, action)| {
-            Ok((*mask, parse_action(action, s)?))
+            let parsed_action = parse_action(action, s)?;
+            // The chord actions of the layers have already been collected at this point;
+            // one that only shows up now would never be connected to its group.
+            if contains_chord_action(parsed_action) {
+                bail_expr!(action, "The chord action cannot be used within defchords");
+            }
+            Ok((*mask, parsed_action))
         }).collect::<Result<Vec<_>>>()?;
 
         Ok(s.a.sref(ChordsGroup {
@@ -2951,6 +2957,46 @@ fn resolve_chord_groups(layers: &mut IntermediateLayers, s: &ParserState) -> Res
     }
 
     Ok(())
+}
+
+/// Returns true if the action is, or contains, a `(chord ...)` action.
+pub(crate) fn contains_chord_action(action: &KanataAction) -> bool {
+    match action {
+        Action::Chords(_) => true,
+        Action::NoOp
+        | Action::Trans
+        | Action::Src
+        | Action::Repeat
+        | Action::KeyCode(_)
+        | Action::MultipleKeyCodes(_)
+        | Action::Layer(_)
+        | Action::DefaultLayer(_)
+        | Action::Sequence { .. }
+        | Action::RepeatableSequence { .. }
+        | Action::CancelSequences
+        | Action::ReleaseState(_)
+        | Action::OneShotIgnoreEventsTicks(_)
+        | Action::Custom(_) => false,
+        Action::HoldTap(HoldTapAction {
+            tap,
+            hold,
+            timeout_action,
+            ..
+        }) => {
+            contains_chord_action(tap)
+                || contains_chord_action(hold)
+                || contains_chord_action(timeout_action)
+        }
+        Action::OneShot(OneShot { action: ac, .. }) => contains_chord_action(ac),
+        Action::MultipleActions(actions) => actions.iter().any(contains_chord_action),
+        Action::TapDance(TapDance { actions, .. }) => {
+            actions.iter().any(|ac| contains_chord_action(ac))
+        }
+        Action::Fork(ForkConfig { left, right, .. }) => {
+            contains_chord_action(left) || contains_chord_action(right)
+        }
+        Action::Switch(Switch { cases }) => cases.iter().any(|case| contains_chord_action(case.1)),
+    }
 }
 
 fn find_chords_coords(chord_groups: &mut [ChordGroup], coord: (u8, u16), action: &KanataAction) {
